@@ -9,6 +9,8 @@ LEVEL = 'exploration'
 
 DYADIC = [(None, None), (0, None), (8, None), (8, 3), (3, 8), (16, None)]
 DECIMAL = [(0.1, None), (0.2, None), (0.3, None)]
+# ties in decimal arithmetic at a magnitude where one ulp exceeds 1e-9
+BIGDEC = [(10000000.1, None), (10000000.2, None), (20000000.3, None)]
 
 
 def F(x):
@@ -72,8 +74,8 @@ _TIER = 'quick'
 
 
 def menus(tier, nleaves):
-    if tier == 'quick' and nleaves == 3:
-        return [[(None, None), (8, None), (8, 3), (16, None)], DECIMAL]
+    if nleaves == 3:
+        return [[(None, None), (8, None), (8, 3), (16, None)] if tier == 'quick' else DYADIC, DECIMAL, BIGDEC]
     if nleaves >= 4:
         return [[(0, None), (8, None), (8, 3), (16, None)], DECIMAL] if tier == 'thorough' else [[(8, None), (4, None), (12, None)]]
     return [DYADIC, DECIMAL]
@@ -92,11 +94,17 @@ def _work(chunk):
         for links in LY.link_sets(par, 1 if _TIER == 'quick' else 2):
             if not LY.direct_cycle(5, links) and not LY.leaf_cycle(par, links):
                 structs.append((par, links))
-    for par, links in structs[i::n]:
+    flat4 = (None, None, None, None)
+    big4 = [(flat4, t) for t in itertools.combinations(LY.link_candidates(flat4), 3)
+            if not LY.direct_cycle(4, t) and not any((b, a) in t for a, b in t)]
+    for par, links in structs[i::n] + [(p_, l_ + ('BIG',)) for p_, l_ in big4[i::n]]:
+        big = bool(links) and links[-1] == 'BIG'
+        if big:
+            links = links[:-1]
         lv = [k for k in range(len(par)) if LY.is_leaf(par, k)]
         summary_link = any((not LY.is_leaf(par, p)) or (not LY.is_leaf(par, s)) for p, s in links)
-        for menu in menus(_TIER, len(lv)):
-            decimal = menu is DECIMAL
+        for menu in ([BIGDEC + [(5, None)]] if big else menus(_TIER, len(lv))):
+            decimal = menu is DECIMAL or menu is BIGDEC or big
             for combo in itertools.product(menu, repeat=len(lv)):
                 attrs = {}
                 durs = {}
